@@ -355,6 +355,11 @@ def c03(ctx):
         pkgs += ["./storage/table/fsm/", "./replication/backup/"]
     if not ctx.repo_test_traces("repository-test-traces", pkgs):
         return
+    # a replica applies while its readers run (and other tables of the process apply): results and content of every
+    # Update must still be what the log says - nothing that concurrent use of process-wide pools can change
+    n, ops = (4, 800) if q else (40, 3000)
+    if not ctx.gv("apply-under-concurrent-readers", "Trace_Table", ["table", "--mode", "conc", "--seed", str(seed() + 13), "--n", str(n), "--ops", str(ops)], racy=True):
+        return
     # directed witness of the known finding DelPrevSizeCut (identical on every replica, but not what the log says)
     ctx.gv("big-value-deletes", "Trace_Table", ["table", "--mode", "bigscan", "--mix", "witness", "--seed", str(seed() + 2), "--n", str(1 if q else 6)])
 
